@@ -45,8 +45,8 @@ def daysFromCivil (y m d : Nat) : Nat :=
   let yoe := y' % 400
   let mp := if 2 < m then m - 3 else m + 9
   let doy := (153 * mp + 2) / 5 + d - 1
-  let doe := yoe * 365 + yoe / 4 - yoe / 100 + doy
-  era * 146097 + doe
+  let doe := 365 * yoe + yoe / 4 - yoe / 100 + doy
+  146097 * era + doe
 
 /-- the civil date `(y, m, d)` of day number `z` counted from 0000-03-01 -/
 def civilFromDays (z : Nat) : Nat × Nat × Nat :=
@@ -57,7 +57,7 @@ def civilFromDays (z : Nat) : Nat × Nat × Nat :=
   let mp := (5 * doy + 2) / 153
   let d := doy - (153 * mp + 2) / 5 + 1
   let m := if mp < 10 then mp + 3 else mp - 9
-  let y := yoe + era * 400 + (if m ≤ 2 then 1 else 0)
+  let y := yoe + 400 * era + (if m ≤ 2 then 1 else 0)
   (y, m, d)
 
 /-- 1970-01-01 counted from 0000-03-01 -/
@@ -80,7 +80,7 @@ def validDate (y mo d h mi s : Nat) : Bool :=
 
 /-- `int(datetime(y, mo, d, h, mi, s, tzinfo=utc).timestamp())` -/
 def toTimestamp (y mo d h mi s : Nat) : Int :=
-  ((daysFromCivil y mo d : Int) - EPOCH) * 86400 + (h * 3600 + mi * 60 + s : Nat)
+  86400 * ((daysFromCivil y mo d : Int) - EPOCH) + (3600 * h + 60 * mi + s : Nat)
 
 /-- `int(dt.strftime("%j"))` -/
 def dayOfYear (y m d : Nat) : Nat := daysFromCivil y m d - daysFromCivil y 1 1 + 1
@@ -126,7 +126,7 @@ def State1.unpack (st : State1) (buf : Bytes) : State1 × R Unit :=
   match structUnpackFrom TDF1_unpack_fmt0 buf 0 with
   | .ok [csd, ms, s, mn, h] =>
     let st1 := { st with channel_specific_data := csd }
-    let ns := bcdToInt ms * 10 * 1000000
+    let ns := 1000000 * (10 * bcdToInt ms)
     let sec := bcdToInt s
     let mins := bcdToInt mn
     let hrs := bcdToInt h
@@ -147,7 +147,7 @@ def State1.unpack (st : State1) (buf : Bytes) : State1 × R Unit :=
         let dayOfYr := bcdToInt doy + 100 * bcdToInt hdoy
         -- strptime("%H:%M:%S %j %Y %Z") of "hh:mm:ss ddd 1970 GMT"
         if hrs < 24 && mins < 60 && sec < 60 && 1 ≤ dayOfYr && dayOfYr ≤ 366 then
-          ({ st1 with seconds := (((dayOfYr - 1) * 86400 + hrs * 3600 + mins * 60 + sec : Nat) : Int),
+          ({ st1 with seconds := ((86400 * (dayOfYr - 1) + 3600 * hrs + 60 * mins + sec : Nat) : Int),
                       nanoseconds := ns }, .ok ())
         else (st1, .error .value)
       | .ok _ => (st1, .error .struct)
